@@ -43,6 +43,22 @@ func TestVerif(t *testing.T) {
 }
 
 var registry = map[string]func(t *testing.T, c *Collector){
+	"C02": func(t *testing.T, c *Collector) {
+		c.res.Rule = "every sequence of <= depth ops with Close/reopen (snapshot kept / deleted / damaged / double Close) and GC cycles at every position (<= 2 reopens per history); at the end the directory image is forked and reopened through the snapshot and through a rescan and both must denote identical record lists and reads; non-trivial = history contains a reopen and ends with a non-empty store"
+		runSeqScenarios(c, c02Scenarios(c.job.Tier))
+	},
+	"C07": func(t *testing.T, c *Collector) {
+		c.res.Rule = "fsck (independent reader of every file format) on every quiescent state reached: after Flush against the live bucket table, after Close against snapshot and rescan; histories as in C04; non-trivial = a GC op mutated the file system"
+		runSeqScenarios(c, gcScenarios("C07", c.job.Tier))
+	},
+	"C13": func(t *testing.T, c *Collector) {
+		c.res.Rule = "freed-location ledger on every history of the C04 universe: the multiset of locations that stopped being current must equal the multiset of entries ever appended to the freelist (from the MemFS log) and, after a complete cycle, the multiset presented to the primary GC; non-trivial = at least one location was superseded"
+		runSeqScenarios(c, gcScenarios("C13", c.job.Tier))
+	},
+	"C04": func(t *testing.T, c *Collector) {
+		c.res.Rule = "every sequence of <= depth ops (Put/Remove/Flush/IndexGC/PrimaryGC[/deadline cuts/Reopen]) after each preamble x configuration; GC ops are identities in the reference map; non-trivial = a GC op mutated the file system in that history"
+		runSeqScenarios(c, gcScenarios("C04", c.job.Tier))
+	},
 	"C01": func(t *testing.T, c *Collector) {
 		c.res.Rule = "every sequence of <= depth ops over the alphabet x every configuration; non-trivial = at least two present keys share a bucket (and stored prefix bytes) at the end of the history; distinct by construction (each history enumerated once)"
 		runSeqScenarios(c, c01Scenarios(c.job.Tier))
